@@ -187,3 +187,90 @@ Theorem dep_reads_by_requirement_in_force req ops o x :
 Proof.
   intro H. rewrite dep_run_app, dep_current_last. cbn [dep_run]. rewrite H. reflexivity.
 Qed.
+
+(* ------------------------------------------------------------------ *)
+(* _get_cfgs: the result of a call does not depend on the calls before it.  rust_args is
+   an option of the (machine, subproject) pair, i.e. a function [flagsof] of the key. *)
+Section Session.
+  Variable flagsof : str -> list str.
+  Variable lines : list str.
+
+  Definition good (st : gstate) : Prop :=
+    g_shared st = lines /\
+    forall k d, cache_find k (g_cache st) = Some d -> get_cfgs lines (flagsof k) = Some d.
+
+  Lemma gc_call_good st k : good st ->
+    fst (gc_call st k (flagsof k)) = get_cfgs lines (flagsof k) /\ good (snd (gc_call st k (flagsof k))).
+  Proof.
+    intros [Hs Hc]. unfold gc_call. destruct (cache_find k (g_cache st)) as [d|] eqn:E.
+    - simpl. split; [symmetry; apply Hc; exact E | split; assumption].
+    - rewrite Hs. destruct (get_cfgs lines (flagsof k)) as [d|] eqn:G; simpl.
+      + split; [reflexivity|]. split; [reflexivity|]. intros k' d'. simpl.
+        destruct (str_eqb k' k) eqn:Ek.
+        * apply str_eqb_eq in Ek. subst k'. intro H. inversion H; subst. exact G.
+        * apply Hc.
+      + split; [reflexivity | split; assumption].
+  Qed.
+
+  Definition with_flags (c : str * str) : str * list str * str := (fst c, flagsof (fst c), snd c).
+
+  (* every call of a session answers with rustc's lines plus ITS OWN --cfg flags,
+     whatever was asked before (other subprojects, other machines, repeats) *)
+  Theorem session_independent : forall calls st, good st ->
+    gc_session st (map with_flags calls) =
+    map (fun c => match get_cfgs lines (flagsof (fst c)) with
+                  | Some d => Some (eval_cfg (snd c) d) | None => None end) calls.
+  Proof.
+    induction calls as [|[k c] calls IH]; intros st Hg; [reflexivity|].
+    cbn [map with_flags fst snd gc_session].
+    destruct (gc_call_good st k Hg) as [Hr Hg'].
+    destruct (gc_call st k (flagsof k)) as [d st']. simpl in Hr, Hg'. rewrite Hr.
+    f_equal. apply IH. exact Hg'.
+  Qed.
+  Lemma good_init : good (mkG lines []).
+  Proof. split; [reflexivity | intros k d H; discriminate]. Qed.
+End Session.
+
+(* ------------------------------------------------------------------ *)
+(* _prepare_package: which target-specific dependencies a machine requires *)
+Definition cond_holds (d : cfgs) (t : str * list str) : bool :=
+  match eval_cfg (fst t) d with Ok true => true | _ => false end.
+Definition all_evaluate (targets : list (str * list str)) (d : cfgs) : Prop :=
+  Forall (fun t => exists b, eval_cfg (fst t) d = Ok b) targets.
+Definition merged (targets : list (str * list str)) (d : cfgs) (deps : list str) : list str :=
+  fold_left (fun acc t => if cond_holds d t then dep_merge acc (snd t) else acc) targets deps.
+
+Lemma merge_targets_spec targets d : all_evaluate targets d -> forall deps,
+  merge_targets targets d deps = (merged targets d deps, true).
+Proof.
+  induction 1 as [|[c ns] r [b Hb] _ IH]; intro deps; [reflexivity|].
+  cbn [fst] in Hb.
+  assert (Hc : cond_holds d (c, ns) = b) by (unfold cond_holds; cbn [fst]; rewrite Hb; destruct b; reflexivity).
+  cbn [merge_targets]. rewrite Hb.
+  change (merged ((c, ns) :: r) d deps)
+    with (merged r d (if cond_holds d (c, ns) then dep_merge deps (snd (c, ns)) else deps)).
+  rewrite Hc. cbn [snd]. destruct b; apply IH.
+Qed.
+(* the machine prepared FIRST requires exactly the unconditional dependencies plus those
+   whose condition holds for it *)
+Theorem prepare_first_machine targets cfg_of base h :
+  all_evaluate targets (cfg_of h) ->
+  fst (prepare_package targets cfg_of (mkP base []) h) = Some (merged targets (cfg_of h) base).
+Proof.
+  intro H. unfold prepare_package. cbn [bool_mem existsb p_done p_deps].
+  rewrite (merge_targets_spec _ _ H). reflexivity.
+Qed.
+(* ... the machine prepared second does not: host = windows, build = linux, the build
+   machine is handed winapi although cfg(windows) is false for it *)
+Theorem prepare_leak_refuted : exists targets cfg_of base,
+  cond_holds (cfg_of false) (s2l "cfg(windows)", [s2l "winapi"]) = false /\
+  In (s2l "cfg(windows)", [s2l "winapi"]) targets /\
+  match prepare_session targets cfg_of (mkP base []) [true; false] with
+  | [_; Some l] => str_mem (s2l "winapi") l
+  | _ => false
+  end = true.
+Proof.
+  exists [(s2l "cfg(windows)", [s2l "winapi"]); (s2l "cfg(unix)", [s2l "libc"])],
+         (fun h : bool => if h then [(s2l "windows", [])] else [(s2l "unix", [])]), [s2l "base"].
+  vm_compute. repeat split; auto.
+Qed.
